@@ -148,6 +148,8 @@ static inline void dlist_del_init(struct dlist_head *entry)
  */
 static inline void dlist_move(struct dlist_head *list, struct dlist_head *head)
 {
+    if (list == head)
+        return; /* "after itself": the entry is where it should be */
     __dlist_del(list->prev, list->next);
     dlist_add(list, head);
 }
@@ -160,6 +162,8 @@ static inline void dlist_move(struct dlist_head *list, struct dlist_head *head)
 static inline void dlist_move_tail(struct dlist_head *list,
                                    struct dlist_head *head)
 {
+    if (list == head)
+        return; /* "before itself": the entry is where it should be */
     __dlist_del(list->prev, list->next);
     dlist_add_tail(list, head);
 }
